@@ -573,7 +573,7 @@ def check_property(prop, tier, only=None, verbose=False):
                 if k:
                     known_hits.append((k, j, item)); continue
                 rep = None
-                if (item["inputs"] or j.timeout_is_nontermination) and not j.static_only and not j.no_replay and not reproduced_here and replay_budget[0] > 0:
+                if not j.static_only and not j.no_replay and not reproduced_here and replay_budget[0] > 0:
                     replay_budget[0] -= 1
                     try:
                         rep = native_replay(prop, j, item["inputs"], "f%d" % n)
@@ -582,7 +582,7 @@ def check_property(prop, tier, only=None, verbose=False):
                     reproduced_here = rep.get("outcome") == "reproduced"
                 elif reproduced_here:
                     rep = dict(outcome="not-run", output="another failing obligation of the same job was already reproduced natively")
-                elif item["inputs"] and replay_budget[0] <= 0:
+                elif not j.static_only and replay_budget[0] <= 0:
                     rep = dict(outcome="not-run", output="replay budget for this run exhausted (%d native replays)" % MAX_REPLAYS_PER_PROPERTY)
                 else:
                     rep = dict(outcome="no-input", output="static obligation or no input trace")
